@@ -179,6 +179,8 @@ class SInt(Sym):
             return SInt(a - b)
         if op == "Mult":
             return SInt(a * b)
+        if op == "Div":
+            return SQuot(a, b)
         raise Unsupported(f"SInt binop {op}")
 
     def sym_isinstance(self, ex, cls):
@@ -186,6 +188,13 @@ class SInt(Sym):
 
     def __repr__(self):
         return f"SInt({self.e})"
+
+
+class SQuot(Sym):
+    """true division a / b of two integers: only int() of it is given a meaning (by the contract's context), formatting is opaque"""
+
+    def __init__(self, a, b):
+        self.a, self.b = a, b
 
 
 class OpaqueStr(Sym):
@@ -514,6 +523,11 @@ def refute_small(pc, goal, lengths, timeout_ms=3000):
         dt += t
         if v == "sat":
             return v, m, dt
+    # mixed small lengths
+    v, m, t = solve_frontend(pc, goal, timeout_ms, extra=[z3.And(n >= 0, n <= 2) for n in lengths])
+    dt += t
+    if v == "sat":
+        return v, m, dt
     return "unknown", None, dt
 
 
